@@ -61,12 +61,14 @@ enum Variant
   V_DENY,
   V_STR_CUPTR,
   V_STR_CUPTR_VOL,
+  V_CV_ARRAY_REF,
+  V_CV_BUFADDR_VOL,
   V_COUNT
 };
 static const char* kVar[] = { "string_uptr",   "string_std",  "string_uptr_from_cell", "string_std_from_cell", "range_char",   "range_short",
                               "range_int",     "range_ll",    "range_double",          "range_int_from_cell",  "cv_ptr_prim",  "cv_ptr_prim_from_cell",
                               "cv_fund_in_cell", "cv_struct", "cv_array_field",        "cv_address_from_cell", "cv_buffer_address", "deny_access_copy",
-                              "string_const_uptr", "string_const_uptr_from_cell" };
+                              "string_const_uptr", "string_const_uptr_from_cell", "cv_array_field_by_reference", "cv_buffer_address_from_cell" };
 static_assert(sizeof(kVar) / sizeof(kVar[0]) == V_COUNT);
 
 enum Mut
@@ -78,10 +80,11 @@ enum Mut
   M_RETARGET,
   M_NULL_CELL,
   M_SCRIBBLE,
+  M_RETARGET_END, // the cell is pointed at the last bytes of the region: whatever extent was checked for the old target does not fit there
   M_ALLOC_FAIL, // not a guest mutation: the k-th host allocation made inside the call fails (k counts allocations, not accesses)
   M_COUNT
 };
-static const char* kMut[] = { "remove_terminator", "insert_terminator", "lengthen", "flip_element", "retarget_cell", "null_cell", "scribble_region", "host_allocation_fails" };
+static const char* kMut[] = { "remove_terminator", "insert_terminator", "lengthen", "flip_element", "retarget_cell", "null_cell", "scribble_region", "retarget_cell_to_region_end", "host_allocation_fails" };
 
 constexpr uint32_t OFF_CELL = 32; // pointer cell
 constexpr uint32_t OFF_B = 1024; // second buffer (retarget target)
@@ -102,6 +105,7 @@ static size_t elem_size(int v)
       return 8;
     case V_CV_STRUCT:
     case V_CV_ARRAY:
+    case V_CV_ARRAY_REF:
     case V_CV_FUND_VOL:
       return sizeof(GNode);
     default:
@@ -114,11 +118,11 @@ static bool is_string(int v)
 }
 static bool uses_cell(int v)
 {
-  return v == V_STR_UPTR_VOL || v == V_STR_STD_VOL || v == V_STR_CUPTR_VOL || v == V_RANGE_INT_VOL || v == V_CV_PRIM_VOL || v == V_CV_ADDR_VOL;
+  return v == V_STR_UPTR_VOL || v == V_STR_STD_VOL || v == V_STR_CUPTR_VOL || v == V_CV_BUFADDR_VOL || v == V_RANGE_INT_VOL || v == V_CV_PRIM_VOL || v == V_CV_ADDR_VOL;
 }
 static bool single_object(int v)
 {
-  return v == V_CV_PRIM || v == V_CV_PRIM_VOL || v == V_CV_FUND_VOL || v == V_CV_STRUCT || v == V_CV_ARRAY || v == V_CV_ADDR_VOL;
+  return v == V_CV_PRIM || v == V_CV_PRIM_VOL || v == V_CV_FUND_VOL || v == V_CV_STRUCT || v == V_CV_ARRAY || v == V_CV_ARRAY_REF || v == V_CV_ADDR_VOL;
 }
 
 // length of a string handed over in a heap block of its own: never reads beyond the block
@@ -199,6 +203,11 @@ struct ToctouWorld : World
       case M_SCRIBBLE:
         memset(g + 8, 'Z', S - 8);
         break;
+      case M_RETARGET_END: {
+        uint32_t b = (uint32_t)(S - 2);
+        memcpy(g + OFF_CELL, &b, 4);
+        break;
+      }
       default:
         return;
     }
@@ -255,12 +264,23 @@ struct ToctouWorld : World
   // ---- oracle helpers ----
   bool addr_in_region(uintptr_t a) { return a >= (uintptr_t)impl->mem.base && a < (uintptr_t)impl->mem.base + S; }
   // may byte `val` at element-relative byte position `pos` stem from some version of the source?
+  // places the source can legitimately start at: the buffer itself and, for pointers that live in a cell, whatever
+  // the guest retargeted the cell to
+  std::vector<uint32_t> source_starts()
+  {
+    std::vector<uint32_t> b{ offA };
+    if (uses_cell(variant)) {
+      b.push_back(OFF_B);
+      for (auto& f : faults)
+        if (f.mut == M_RETARGET_END && f.fired)
+          b.push_back((uint32_t)(S - 2));
+    }
+    return b;
+  }
   bool byte_allowed(size_t pos, uint8_t val)
   {
     for (auto& v : versions) {
-      for (uint32_t base : { offA, (uint32_t)OFF_B }) {
-        if (base == OFF_B && !uses_cell(variant))
-          continue;
+      for (uint32_t base : source_starts()) {
         if ((size_t)base + pos < S && v[base + pos] == val)
           return true;
       }
@@ -271,9 +291,7 @@ struct ToctouWorld : World
   {
     size_t best = 0;
     for (auto& v : versions)
-      for (uint32_t base : { offA, (uint32_t)OFF_B }) {
-        if (base == OFF_B && !uses_cell(variant))
-          continue;
+      for (uint32_t base : source_starts()) {
         size_t n = 0;
         while (base + n < S && v[base + n] != 0)
           n++;
@@ -510,6 +528,21 @@ struct ToctouWorld : World
             },
             lenA);
           break;
+        case V_CV_ARRAY_REF:
+          // the verifier takes the array by reference: what it is handed must still be an application-side copy
+          arr = pA((SimNode*)0)->name.copy_and_verify([&](const std::array<char, 8>& a) {
+            verifier_saw(a.data(), 8);
+            return a;
+          });
+          break;
+        case V_CV_BUFADDR_VOL:
+          addr_val = (*cell((char*)0)).copy_and_verify_buffer_address(
+            [&](uintptr_t a) {
+              verifier_saw(&a, sizeof a);
+              return a;
+            },
+            lenA);
+          break;
         case V_STR_CUPTR:
           kept_cstr = pA((char*)0).copy_and_verify_string([&](std::unique_ptr<const char[]> s) {
             verifier_saw(s.get(), s ? bounded_strlen(s.get()) + 1 : 0, !s);
@@ -637,7 +670,7 @@ struct ToctouWorld : World
       } else if (u_struct) {
         kept_ptr = u_struct.get();
         kept_n = sizeof(*u_struct);
-      } else if (variant == V_CV_ARRAY) {
+      } else if (variant == V_CV_ARRAY || variant == V_CV_ARRAY_REF) {
         kept_ptr = arr.data();
         kept_n = 8;
       } else if (deny_buf) {
@@ -661,7 +694,9 @@ struct ToctouWorld : World
       if (is_string(variant)) {
         size_t n = kept_n - 1;
         // the delivered characters must fit inside the sandbox from a candidate source start
-        bool fits_somewhere = (size_t)offA + n <= S || (uses_cell(variant) && (size_t)OFF_B + n <= S);
+        bool fits_somewhere = false;
+        for (uint32_t b0 : source_starts())
+          fits_somewhere = fits_somewhere || (size_t)b0 + n <= S;
         if (!fits_somewhere)
           c.violate("C09",
                     cls("string_longer_than_sandbox_range"),
@@ -723,7 +758,7 @@ struct ToctouWorld : World
         }
         if (!ok)
           c.violate("C09", cls("delivered_value_never_in_source"), "value %ld", fund);
-      } else if (variant == V_CV_ARRAY) {
+      } else if (variant == V_CV_ARRAY || variant == V_CV_ARRAY_REF) {
         for (size_t i = 0; i < 8 && !c.stop; i++)
           if (!byte_allowed(offsetof(GNode, name) + i, kept[i]))
             c.violate("C09", cls("delivered_byte_never_in_source"), "array element %zu", i);
@@ -735,7 +770,7 @@ struct ToctouWorld : World
       }
       // fault-free: exact content
       if (fault_free && !c.stop && variant != V_CV_STRUCT) {
-        const uint8_t* src = &versions[0][offA + (variant == V_CV_ARRAY ? offsetof(GNode, name) : 0)];
+        const uint8_t* src = &versions[0][offA + (variant == V_CV_ARRAY || variant == V_CV_ARRAY_REF ? offsetof(GNode, name) : 0)];
         size_t n = is_string(variant) ? kept_n - 1 : kept.size();
         if (is_string(variant) && n != lenA)
           c.violate("C09", cls("fault_free_wrong_length"), "%zu vs %u", n, lenA);
@@ -743,7 +778,7 @@ struct ToctouWorld : World
           c.violate("C09", cls("fault_free_wrong_content"), "delivered copy differs from the unchanged source");
       }
     }
-    if ((variant == V_CV_ADDR_VOL || variant == V_CV_BUFADDR) && o == OK && !c.stop) {
+    if ((variant == V_CV_ADDR_VOL || variant == V_CV_BUFADDR || variant == V_CV_BUFADDR_VOL) && o == OK && !c.stop) {
       bool ok = addr_val == 0;
       for (auto& v : versions) {
         uint32_t rep;
@@ -754,6 +789,9 @@ struct ToctouWorld : World
       }
       if (!ok)
         c.violate("C09", cls("address_never_designated_by_source"), "address offset %lld", (long long)(addr_val - base));
+      else if (variant != V_CV_ADDR_VOL && addr_val != 0 && (addr_val < base || addr_val - base + (size_t)lenA * esz > S))
+        // the address that was handed over is not the one whose extent was checked
+        c.violate("C09", cls("buffer_address_handed_over_without_its_checked_extent"), "%u elements from offset %lld do not fit the region", lenA, (long long)(addr_val - base));
     }
     if (variant == V_DENY && o == OK && !c.stop) {
       if (deny_buf == nullptr)
